@@ -42,4 +42,23 @@ def io_count(ctx, prog, rule='IO-COUNT'):
                     ok = (v1 == 1 and s2 == V) or (v2 == 1 and s1 == V) or s2 == V or s1 == V or (res is not None and res == V)
                     ctx.ob(rule, '%s:%s-=%s#%d' % (f.name, R, V[:30], k + 1), ok, f.loc(c), '%s (.., %s, %s, ..) while the loop accounts for %s -= %s%s' % (c['callee'], s1[:30], s2[:30], R, V[:30], '' if ok else
                            ': the amount transferred is not the amount accounted for — bytes of the following data are consumed (or left unread)'), None)
+                    if c['callee'] in ('psf_fread', 'fread') and not (res is not None and res == V):
+                        # a read that is accounted for by the request, not by its result: a short read must end the loop, otherwise a stream that
+                        # has ended makes the loop spin R / V times with R a file-derived 64-bit count
+                        def exits(st):
+                            return any(x['k'] in ('BreakStmt', 'ReturnStmt', 'GotoStmt') for x in f.walk(st))
+                        how = None
+                        for st in f.walk(body):
+                            if st['k'] != 'IfStmt' or st.get('then') is None or not exits(f.N[st['then']]):
+                                continue
+                            cn = f.N[st['cond']]
+                            if f.within(c, cn):
+                                how = 'the result is tested in place: `%s`' % f.s(cn)[:60]
+                            elif res is not None and any(x['k'] == 'DeclRefExpr' and x.get('n') == res for x in f.walk(cn)) and (st['l'], st['c']) > (c['l'], c['c']):
+                                how = 'the result `%s` is tested: `%s`' % (res, f.s(cn)[:60])
+                            if how:
+                                break
+                        ctx.ob(rule, '%s:%s-=%s#%d:short' % (f.name, R, V[:30], k + 1), how is not None, f.loc(c), how or
+                               'the result of %s is not tested: when the stream has ended the call returns 0 each time and the loop still runs %s / %s times (%s is a count taken from the file: '
+                               'up to 2^63) - the open call does not return' % (c['callee'], R, V[:20], R), None)
     return n
